@@ -135,7 +135,7 @@ theorem remove_shape (s s' : App) (op : Nat) (v : Val) (m : St s) (hv : s.getVal
   have hvm := mem_of_getVal s op v hv
   have hvop := getVal_op _ _ _ hv
   subst hvop
-  have hlp : s.lastPower v.op = cur v := by simp [lastPower, m.last v hvm, lastOf_active v ha]
+  have hlp : s.lastPower v.op = cur v := by simp [lastPower, m.lastA v hvm ha]
   have hcpos : cur v > 0 := by unfold cur; have := ha.2.2.1; omega
   unfold removeCore at h
   split at h
@@ -217,15 +217,16 @@ theorem two_active (l : List Val) (hs : SortedOps l) (v : Val) (h2 : ¬ (l.filte
 /-- **a successful RemoveValidator of an `Active` validator that was not re-weighted in this block and whose index entry
     sits at its current power (no D2) preserves `M2`**: the record becomes `Gone` -/
 theorem M2_remove (s s' : App) (c : CSet) (op : Nat) (v : Val) (m : M2 s c) (h : s.removeCore (some op) = .ok s')
-    (hv : s.getVal op = some v) (hpos : powerOf v.tokens > 0) (hd3 : op ∉ s.updated)
+    (hv : s.getVal op = some v) (hpos : powerOf v.tokens > 0) (hnj : v.jailed = false) (hd3 : op ∉ s.updated)
     (hidx : (powerOf v.tokens, op) ∈ s.index) : M2 s' c := by
   have hvm := mem_of_getVal s op v hv
   have hvop := getVal_op _ _ _ hv
   have hav : Active v := by
-    rcases m.st.cls v hvm with ha | hg | hu
+    rcases m.st.cls v hvm with ha | hg | hu | hj
     · exact ha
     · rw [hg.2.2.1] at hpos; simp [powerOf] at hpos
     · rw [hu.2.2.1] at hpos; simp [powerOf] at hpos
+    · rw [hj.1] at hnj; cases hnj
   obtain ⟨hguard, D, LT, AB, B, S, BM, I0, hs'⟩ := remove_shape s s' op v m.st hv hav h
   have io := m.st.idx v hvm
   have hocc1 : occ op s.index = 1 := by have := io.a1 hav (by rw [hvop]; exact hd3); rw [hvop] at this; exact this
@@ -263,10 +264,11 @@ theorem M2_remove (s s' : App) (c : CSet) (op : Nat) (v : Val) (m : M2 s c) (h :
       refine ⟨x, hx, ?_, ?_⟩
       · intro e; exact hne (sorted_op_inj _ m.st.sorted x hx v hvm (by rw [e, hvop]))
       · simp only [isActive, Bool.and_eq_true, beq_iff_eq, Bool.not_eq_true', decide_eq_true_eq] at hxa
-        rcases m.st.cls x hx with ha | hg | hu
+        rcases m.st.cls x hx with ha | hg | hu | hj
         · exact ha
         · have := hxa.2; rw [hg.2.2.1] at this; simp [powerOf] at this
         · have := hxa.2; rw [hu.2.2.1] at this; simp [powerOf] at this
+        · have := hxa.1.2; rw [hj.1] at this; cases this
     · rw [hpendE]; exact List.Sublist.refl _
     · intro q hq
       rw [hpendE] at hq
@@ -275,7 +277,8 @@ theorem M2_remove (s s' : App) (c : CSet) (op : Nat) (v : Val) (m : M2 s c) (h :
       · intro e; rw [e, hv] at f1; cases f1
       · intro e; exact f2 v hvm e.symm
     · intro o ho; rw [hlastE, alookup_ainsert_ne _ _ _ _ ho, alookup_aerase_ne _ _ _ ho]
-    · rw [hlastE, alookup_ainsert_self, lastOf_gone _ hgw]
+    · intro _; rw [hlastE, alookup_ainsert_self, lastOf_gone _ hgw]
+    · intro hj; exact absurd hj (by rw [hgw.2.1]; simp)
     · rw [hlastE]; exact ksorted_ainsert _ _ _ (ksorted_aerase _ _ m.st.lastSorted)
     · intro e he
       rw [hindex] at he
@@ -299,7 +302,8 @@ theorem M2_remove (s s' : App) (c : CSet) (op : Nat) (v : Val) (m : M2 s c) (h :
         g := (fun _ => by
           rw [hwop, hindex, occ_idxErase _ _ _ m.st.idxNodup, hocc1]
           simp [hidx])
-        u := (fun hu => absurd hu (gone_not_unb _ hgw)) }
+        u := (fun hu => absurd hu (gone_not_unb _ hgw))
+        j := (fun hj => absurd hj (by rw [hgw.2.1]; simp)) }
     · rw [hparamsE]; exact m.st.unbond
     · intro y hy _; simp only [getInfo, hinfosE]; exact isSome_ainsert _ _ _ _ (m.st.infos y hy)
     · simp only [getInfo, hinfosE]; exact isSome_ainsert _ _ _ _ (m.st.infos v hvm)
@@ -316,13 +320,14 @@ theorem M2_remove (s s' : App) (c : CSet) (op : Nat) (v : Val) (m : M2 s c) (h :
       intro eo
       obtain ⟨w, hw, hwu, _⟩ := m.st.qRecs e he
       rw [eo, hv] at hw; injection hw with hw
-      rw [← hw] at hwu
-      exact active_not_unb v hav hwu
+      rw [← hw, hav.1] at hwu
+      cases hwu
   · apply Cm_put s s' c op (emptied v) m.st m.cm hwop hvals hupdNe
     · intro ha; exact absurd hgw (active_not_gone _ ha)
     · intro _
       show alookup v.key c ≠ none
       rw [m.cm.cur v hvm hav (by rw [hvop]; exact hd3)]; simp
+    · intro hj; exact absurd hj (by rw [hgw.2.1]; simp)
     · intro v2 hv2 _
       rw [hv] at hv2; injection hv2 with hv2
       rw [← hv2]; exact ⟨rfl, rfl⟩
